@@ -356,9 +356,14 @@ class ScriptedCache(Cache):
         if self._mem is not None and self._peek() in ("behave", "lieExists"):
             # passed on: the MemoryCache behind computes the fingerprint (once, as one backend call does)
             self._next()
+            self._mem._cache.last = None
             try:
                 v = self._mem.get(evaluatable, options)
-            except CacheGetFailure:
+            except CacheGetFailure as e:
+                if self._mem._cache.last is None and e.__cause__ is not None:
+                    # the fingerprint could not even be computed (user code below raised a KeyError, which
+                    # MemoryCache.get takes for a missing entry): that failure is the outcome, as for every other call
+                    raise e.__cause__
                 self._log("get", self._mem._cache.last, "miss")
                 raise self._failure(evaluatable, options)
             self._log("get", self._mem._cache.last, "hit")
